@@ -63,8 +63,10 @@ def gen_plan(rng, index, tier):
     steps = []
     for _ in range(rng.randint(3, 25)):
         kind = rng.choice(["prescribed", "prescribed", "uniform", "roundtrip", "roundtrip_uniform", "thermal"])
+        if rng.random() < 0.06:
+            kind = "lowlevel"
         s = {"op": kind, "asm": rng.randrange(100)}
-        if kind in ("prescribed", "roundtrip"):
+        if kind in ("prescribed", "roundtrip", "lowlevel"):
             s["sel"] = rng.randrange(2**24)
             s["factors"] = [round(rng.uniform(0.9, 1.12), 4) for _ in range(8)]
         elif kind in ("uniform", "roundtrip_uniform"):
@@ -283,6 +285,7 @@ class Runner:
                 return False
             ch.performPrescribedAxialExpansion(a, comps, facs, setFuel=True)
             self.check(k, st, a, before)
+            self.prescribed_growth(k, st, a, before["heights"], comps, facs)
             if op == "roundtrip":
                 mid = led.state()
                 ch.performPrescribedAxialExpansion(a, comps, [1.0 / f for f in facs], setFuel=True)
@@ -298,6 +301,7 @@ class Runner:
                 return False
             ch.performPrescribedAxialExpansion(a, comps, facs, setFuel=True)
             self.check(k, st, a, before, uniform_blocks=blocks)
+            self.prescribed_growth(k, st, a, before["heights"], comps, facs)
             self.probe("uniform_blocks")
             if op == "roundtrip_uniform":
                 mid = led.state()
@@ -306,6 +310,30 @@ class Runner:
                 self.restored(k, st, led, before)
                 self.probe("roundtrips")
             self.sig.append((op, len(blocks)))
+            return True
+        if op == "lowlevel":
+            # the changer's own building blocks: a prescription that is refused (a fraction <= 0 in it),
+            # then an accepted one for fewer components, then the expansion
+            comps, facs = self.select(led, st)
+            if len(comps) < 3 or not self.safe(a, comps, facs):
+                return False
+            ch.setAssembly(a, setFuel=True)
+            bad = list(facs)
+            bad[-1] = -0.1
+            try:
+                ch.expansionData.setExpansionFactors(comps, bad)
+            except RuntimeError:
+                self.probe("prescription_refused")
+            else:
+                self.fail("C12.refusal", f"step {k}: a prescription with the growth fraction -0.1 was accepted", what="accepted")
+            keep = [i for i in range(len(comps)) if i % 2 == 1][: max(1, len(comps) // 2)]
+            comps2, facs2 = [comps[i] for i in keep], [facs[i] for i in keep]
+            ch.expansionData.setExpansionFactors(comps2, facs2)
+            ch.axiallyExpandAssembly()
+            self.check(k, st, a, before)
+            self.prescribed_growth(k, st, a, before["heights"], comps2, facs2)
+            self.probe("lowlevel_expansion_after_refusal")
+            self.sig.append((op, len(comps2)))
             return True
         if op == "overgrow":
             comps = [c for bi, c in led.solids if bi < led.nblocks - 1]
@@ -372,6 +400,28 @@ class Runner:
             tops = float(b.p.ztop)
         if bad:
             self.fail("C12.refusal", f"step {k} ({st['op']}): armi refused the expansion (negative height) but left the assembly changed: " + "; ".join(bad), what="not-atomic")
+
+    def prescribed_growth(self, k, st, a, heights_before, comps, facs):
+        """Where a block's target stands on the top of the block below (bottom block, or nothing /
+        that block's own target underneath) the block grows by exactly its target's prescribed
+        fraction - 1.0 if the target was not named."""
+        ch = self.changer
+        fmap = {id(c): f for c, f in zip(comps, facs)}
+        blks = list(a)
+        for bi, b in enumerate(blks[:-1]):
+            tn = b.p.axialExpTargetComponent
+            t = b.getComponentByName(tn) if tn else None
+            if t is None:
+                continue
+            lk = ch.linked.linkedComponents.get(t) if ch.linked is not None else None
+            low = getattr(lk, "lower", None) if lk is not None else None
+            if bi > 0 and low is not None and not ch.expansionData.isTargetComponent(low):
+                continue
+            want = heights_before[bi] * fmap.get(id(t), 1.0)
+            got = float(b.getHeight())
+            if abs(got - want) > 1e-9 * max(1.0, want):
+                self.fail("C12.target", f"step {k} ({st['op']}): block {bi} follows {tn}, whose prescribed growth is {fmap.get(id(t), 1.0)}: height {heights_before[bi]} -> {got}, expected {want}", what="prescribed-growth", op=st["op"])
+            self.probe("prescribed_growth_checked")
 
     def restored(self, k, st, led, before):
         now = led.state()
